@@ -99,15 +99,40 @@ theorem no_freed_reachable {t : ObjectTree} (w : WF t) (i : Nat) (hl : live t i 
 directions: `k` is in the (abstract, ordered) child list of a live object `p` exactly when `k` is a
 live object whose parent link is `p`. -/
 theorem child_lists_agree {t : ObjectTree} (w : WF t) (p : Nat) (hl : live t p = true) (k : Nat) :
-    k ∈ (abs t).kids p ↔ (live t k = true ∧ P t k = p) := by
-  obtain ⟨l, hc, ha, _⟩ := w.args_eq hl
-  have hk : (abs t).kids p = l := by simp [abs, ha]
-  rw [hk]
-  constructor
-  · exact w.chain_parent l (Fi t p) p hc (fun hne => ((w.localP hl).2.2.2.2.2.1 hne).1) k
-  · rintro ⟨hlk, hp⟩
-    obtain ⟨pos, hpos⟩ := w.order
-    exact w.child_mem hc pos hpos (pos k) k (Nat.le_refl _) hlk hp (live_ne_INV w.size_le hl)
+    k ∈ (abs t).kids p ↔ (live t k = true ∧ P t k = p) := w.kids_mem p hl k
+
+/-- the abstract forest has no parent pointers; its derived parent (the node whose child list
+contains `i`) is exactly the pool's parent link -/
+theorem forest_parent_is_link {t : ObjectTree} (w : WF t) (i : Nat) (hl : live t i = true) :
+    (abs t).parentOf i = if P t i = INV then none else some (P t i) := w.parentOf_abs i hl
+
+/-- **find_correct_partial** — `Find` = `resolve` on the abstracted forest, proved for the
+expressions without name segments: `\` (root prefix clause) and `^…^` (each `^` one parent up, not
+found above a root).  Full statement (not proved; decided per lookup by the oracle on the
+implementation's results): for every `p : Path` with `p.valid`, every live `scope`, `live t 0`:
+`t.Find scope (encode p) = .ok (optIdx (resolve (abs t) scope p))` — missing are the clauses with
+segments (`descend`: downward only; `searchUp`: scope, then each enclosing scope). -/
+theorem find_correct_partial {t : ObjectTree} (w : WF t) (scope : Nat) (hs : live t scope = true)
+    (p : Path) (hv : p.valid = true) (hsegs : p.segs = []) :
+    t.Find scope (encode p) = .ok (optIdx (resolve (abs t) scope p)) := by
+  obtain ⟨pre, segs, form⟩ := p
+  simp only at hsegs
+  subst hsegs
+  have hne : scope ≠ InvalidIndex := live_ne_INV w.size_le hs
+  cases pre with
+  | root =>
+    simp [encode, encodePre, encodeBody, ObjectTree.Find, hne, resolve, Path.isSimple, Forest.descend, optIdx]
+  | up k =>
+    cases k with
+    | zero => simp [Path.valid] at hv
+    | succ k =>
+      have h1 : encode ⟨.up (k + 1), [], form⟩ = List.replicate (k + 1) 0x5e := by
+        simp [encode, encodePre, encodeBody]
+      have h2 : resolve (abs t) scope ⟨.up (k + 1), [], form⟩ = (abs t).climb (k + 1) scope := by
+        simp only [resolve, Path.isSimple]
+        cases (abs t).climb (k + 1) scope <;> simp [Forest.descend]
+      rw [h2, ← w.findCarets_climb (k + 1) scope hs, h1]
+      simp [ObjectTree.Find, List.replicate_succ, hne]
 
 /-- **free_slots_reused_first** — `newObject` on a well-formed pool: if some slot is freed the pool
 does not grow and the returned position is a freed slot; only if no slot is freed does the pool
@@ -198,6 +223,7 @@ example : WF exTree ∧ live exTree 0 = true ∧ live exTree 3 = true ∧ newPre
 example : exTree.Find 3 (Name.ofString "_SB_").toList = .ok 3 ∧
     exTree.Find 3 (0x5e :: (Name.ofString "_TZ_").toList) = .ok 5 ∧
     exTree.Find 3 [0x5e, 0x5e] = .ok INV := by decide
+example : (⟨.up 2, [], .canon⟩ : Path).valid = true ∧ (⟨.root, [], .canon⟩ : Path).valid = true := by decide
 example : exTree.NumArgs (some 0) = .ok 5 ∧ (abs exTree).kids 0 = [1, 2, 3, 4, 5] := by decide
 /-- a pool with a freed slot: the next `newObject` reuses it -/
 example : ∃ t t' , exTree.free 4 = .ok t ∧ WF t ∧ t.newObject 1 1 0 = .ok (t', 4) ∧ t'.pool.size = 6 := by
